@@ -304,6 +304,18 @@ def run(chk):
         from . import c09
         c09.daily_keyword_periods(chk_, "C13-R8", chk_.repo.mod("irispie.dates"))
     chk.guard(_daily, chk)
+
+    def _edges(chk_):
+        chk_.rule("C13-R9", "results of change / cumulation on multi-variant series keep every period in which ANY variant has a value: the helper "
+                  "behind Series.trim counts a row as missing only when all variants are missing (evaluated on every pattern of missing cells of "
+                  "a 2-variant array with up to 4 rows)", floor=1, shape_independent=True)
+        from . import c10
+        sm_ = chk_.repo.mod("irispie.series.main")
+        g_ = sm_.func("_get_num_leading_trailing_missing_rows")
+        chk_.saw(sm_, "_get_num_leading_trailing_missing_rows")
+        ok_, detail_ = c10.missing_edge_rows_by_evaluation(g_)
+        chk_.ob("C13-R9", "series.main._get_num_leading_trailing_missing_rows", ok_, detail_, sm_.loc(g_), sure=ok_ is False)
+    chk.guard(_edges, chk)
     from .. import unused as _unused
     chk.guard(_unused.apply, chk, "C13-R91")
     from .. import args as _args
@@ -474,14 +486,22 @@ def rule_r6(chk):
     # tty: neutral value exactly where create_tty is None
     f = meths.get("_shift_tty")
     if f is not None:
-        src = squash_(f)
-        neutral = [c for c in calls_to_(f, "self.set_data") if len(c.args) == 2 and unparse(c.args[1]) == "neutral_value"]
-        ok = None
-        if neutral and isinstance(neutral[0].args[0], ast.Name):
-            d = [n for n in walk_no_nested(f) if isinstance(n, ast.Assign) and unparse(n.targets[0]) == neutral[0].args[0].id]
-            ok = bool(d) and "ifttyisNone" in unparse(d[-1].value).replace(" ", "") if d else None
-        chk.ob("C13-R6", "series.main.Series._shift_tty[neutral periods]", ok,
-               "the neutral value is written exactly to the periods whose create_tty() is None (start-of-year periods of the original span)", sm.loc(f))
+        # by finite evaluation on a span of two years of a 4-periods-a-year frequency with recording stand-ins for get_data / set_data
+        from .. import fin as _fin
+        def _per(i):
+            return _fin.FinObj(i=i, create_tty=(lambda i=i: None if i % 4 == 0 else _per(i - 1)))
+        log = []
+        me = _fin.FinObj(span=[_per(i) for i in range(3, 11)], start=_per(3), end=_per(10),
+                         get_data=lambda ps, *a, **k: ("data", tuple(p.i for p in ps)), set_data=lambda ps, v, *a, **k: log.append((tuple(p.i for p in ps), v)))
+        try:
+            _fin.run_function(f, {params(f)[0]: me, "by": None, "neutral_value": "NEUTRAL", (f.args.kwarg.arg if f.args.kwarg else "kwargs"): {}})
+            want = sorted([((3, 5, 6, 7, 9, 10), ("data", (2, 4, 5, 6, 8, 9))), ((4, 8), "NEUTRAL")], key=str)
+            ok = sorted(log, key=str) == want
+            chk.ob("C13-R6", "series.main.Series._shift_tty[neutral periods]", ok,
+                   "the neutral value is written exactly to the periods whose create_tty() is None (start-of-year periods of the original span), every other "
+                   "period receives the value of its previous period" if ok else f"periods 3..10 (years start at multiples of 4): writes {log}, expected {want}", sm.loc(f), sure=True)
+        except (_fin.NotFinite, _fin.Raised, TypeError, AttributeError) as ex:
+            chk.undecided("C13-R6", "series.main.Series._shift_tty[neutral periods]", f"not finitely evaluable: {type(ex).__name__}: {ex}", sm.loc(f))
     for kw in ("yoy", "soy", "eopy", "tty"):
         if kw not in kws:
             chk.bad("C13-R6", f"series.main.Series._shift_{kw}", "documented keyword shift has no implementation", sm.rel)
